@@ -452,9 +452,16 @@ def batchChunks (bStart bEnd : Int) : List PChunk → Int → List PChunk
     else if c.off ≥ bEnd then []
     else { c with pos := pos } :: batchChunks bStart bEnd rest (pos + c.size)
 
+/-- Stable insertion (Go's `sort.Slice` is an insertion sort below 12 elements, hence stable). -/
 def insertByPos (c : PChunk) : List PChunk → List PChunk
   | [] => [c]
-  | x :: xs => if c.pos < x.pos then c :: x :: xs else x :: insertByPos c xs
+  | x :: xs => if c.pos ≤ x.pos then c :: x :: xs else x :: insertByPos c xs
+
+/-- Order in which the read infos of the workers are merged: worker `w` handles the chunks with
+index `w, w+W, …`; the per-worker lists are concatenated. -/
+def workerOrder (W : Nat) (cs : List PChunk) : List PChunk :=
+  let idx := cs.zipIdx
+  (List.range W).flatMap (fun w => (idx.filter (fun ci => ci.2 % W = w)).map (·.1))
 
 /-- `checkHoles` over the read infos sorted by buffer position. -/
 def checkHoles (infos : List PChunk) (batchSize : Int) : Bool :=
@@ -468,7 +475,7 @@ def checkHoles (infos : List PChunk) (batchSize : Int) : Bool :=
     | some e => e = batchSize
     | none => false
 
-def ptBatches (B total : Int) (chunks : List PChunk) : Nat → Int → List REv → List REv × Outcome Unit
+def ptBatches (B total : Int) (W : Nat) (chunks : List PChunk) : Nat → Int → List REv → List REv × Outcome Unit
   | 0, _, evs => (evs, ok ())
   | k + 1, idx, evs =>
     let bStart := idx * B
@@ -480,15 +487,15 @@ def ptBatches (B total : Int) (chunks : List PChunk) : Nat → Int → List REv 
     | _ =>
       if bc.any (fun c => slice? c.pos (c.pos + c.size) bSize ≠ ok ()) then (evs, Outcome.panic) else
       let evs := evs ++ bc.map (fun c => REv.storeRead c.size c.off)
-      let infos := bc.foldr insertByPos []
-      if ¬ checkHoles infos bSize then (evs, err) else ptBatches B total chunks k (idx + 1) evs
+      let infos := (workerOrder W bc).foldr insertByPos []
+      if ¬ checkHoles infos bSize then (evs, err) else ptBatches B total W chunks k (idx + 1) evs
 
 /-- `GetPassthroughFd` against a scripted store (the script is exhausted when the sequential
 fallback asks again, so that path ends at once). -/
-def passthrough (B : Int) (script : List (Int × Int)) : List REv × Outcome Unit :=
+def passthrough (B : Int) (W : Nat) (script : List (Int × Int)) : List REv × Outcome Unit :=
   let (chunks, total, large) := ptCollect B script [] 0 false
   if large then ([], ok ()) else
   let batchCount := Int.tdiv (total + B - 1) B
-  ptBatches B total chunks batchCount.toNat 0 []
+  ptBatches B total W chunks batchCount.toNat 0 []
 
 end SV.Hostile
